@@ -74,7 +74,9 @@ PROPS["C10"] = dict(
           "touches >=2 extents, or the open had to be refused."),
     expected_probes=["extents.mode_descriptor", "extents.mode_handles", "extents.mode_hdd", "extents.fault_missing_extent",
                      "extents.extent_not_multiple_of_16_sectors", "extents.n_8"] + ["extents.kind_" + k for k in ("flat", "hosted", "stream", "cowd", "sesparse", "hds")],
-    assumptions=["ZERO extents and extent names containing directories or quotes are outside the property's enumeration and are not generated"],
+    assumptions=["ZERO extents (no backing file) and extent names containing directory separators are outside the property's enumeration and are not generated; "
+                 "names contain spaces, unicode, line-separator characters and quote characters in their interior (the descriptor syntax has no escape: a name "
+                 "that begins or ends with a quote character cannot be written unambiguously and is not generated)"],
 )
 
 PROPS["C13"] = dict(
